@@ -23,28 +23,29 @@ func (p *Program) Source() string { return Source(p.Nodes) }
 
 // Profile selects the constructs a generator may use.
 type Profile struct {
-	MaxNodes  int
-	MaxDepth  int
-	Loops     bool
-	Tablerow  bool
-	Cond      bool
-	Case      bool
-	Assign    bool
-	Capture   bool
-	Cycle     bool
-	Jumps     bool // break / continue
-	Comment   bool
-	Raw       bool
-	MapLoops  bool // for over maps (order-sensitive: only for checks that do not use the model's output)
-	Filters   bool
-	WSText    bool // text chunks rich in whitespace (C13)
-	NoArith   bool
-	Failing   bool // may contain one construct that fails at render time
-	BigMaps   bool // bind maps with 2..12 entries (C02)
-	Ticks     bool // conditions may pass through the counting filter `tick`
-	NumPrint  bool // numeric variables only where C18 names them: print, comparison, case/when, arithmetic (not as index, limit, offset or range endpoint)
-	OrdMap    bool // use the ordered-map binding ms (lookup and size) and the byte-slice binding bs (print)
-	PlainText string
+	MaxNodes   int
+	MaxDepth   int
+	Loops      bool
+	Tablerow   bool
+	Cond       bool
+	Case       bool
+	Assign     bool
+	Capture    bool
+	Cycle      bool
+	Jumps      bool // break / continue
+	Comment    bool
+	Raw        bool
+	MapLoops   bool // for over maps (order-sensitive: only for checks that do not use the model's output)
+	Filters    bool
+	WSText     bool // text chunks rich in whitespace (C13)
+	NoArith    bool
+	Failing    bool // may contain one construct that fails at render time
+	BigMaps    bool // bind maps with 2..12 entries (C02)
+	Ticks      bool // conditions may pass through the counting filter `tick`
+	NumPrint   bool // numeric variables only where C18 names them: print, comparison, case/when, arithmetic (not as index, limit, offset or range endpoint)
+	TypedNames bool // assignments use one variable name per kind (C18: role-typed programs)
+	OrdMap     bool // use the ordered-map binding ms (lookup and size) and the byte-slice binding bs (print)
+	PlainText  string
 }
 
 // FullProfile enables everything the model can follow.
@@ -232,6 +233,10 @@ func (g *genv) node(depth int) *N {
 		{4, func() *N { return Obj(g.printable(2)) }},
 	}
 	deep := depth < g.p.MaxDepth && g.budget > 0
+	if g.p.OrdMap {
+		// a byte slice is only promised to print as the string
+		opts = append(opts, opt{1, func() *N { return Obj(Var("bs")) }})
+	}
 	if g.p.Assign {
 		opts = append(opts, opt{2, g.assign})
 	}
@@ -303,6 +308,11 @@ func (g *genv) assign() *N {
 	if g.p.NoArith && k == gNum {
 		k = gInt
 	}
+	if g.p.TypedNames {
+		// one name per kind, so that whatever path the render takes a variable is only ever
+		// used in positions that fit the kind of every value it can hold
+		name = map[gkind]string{gInt: "vi", gNum: "vn", gStr: "vs", gBool: "vb", gArrInt: "va", gArrStr: "vw"}[k]
+	}
 	// Inside a loop an assignment must not be able to grow a value on every iteration
 	// (a = a | concat: a doubles it; three nested loops would need 2^1000 elements):
 	// growth filters are switched off there, which bounds every value by the program size.
@@ -366,6 +376,9 @@ func (g *genv) caseNode(depth int) *N {
 
 func (g *genv) loopNode(depth int, tag string) *N {
 	vname := []string{"i", "j", "it", "n", "s"}[g.pick("lvar", 5)]
+	if g.p.TypedNames && (vname == "n" || vname == "s") {
+		vname = "it"
+	}
 	n := &N{T: tag, S: vname}
 	var elemKind gkind
 	switch c := g.pick("coll", 10); {
@@ -470,7 +483,13 @@ func (g *genv) printable(depth int) *E {
 	if g.p.NoArith && k == gNum {
 		k = gInt
 	}
-	return g.expr(k, depth)
+	e := g.expr(k, depth)
+	if k == gBool && e.T != "cmp" && e.T != "bool" && e.T != "lit" {
+		// a bare value used as a condition is fine, but printing it is a different matter
+		// (it may be a map or an array): print its truth value instead
+		e = BoolE("and", e, LBool(true))
+	}
+	return e
 }
 
 func (g *genv) lit(k gkind) *E {
@@ -559,9 +578,6 @@ func (g *genv) exprD(k gkind, depth int, plain bool) *E {
 			})
 		}
 	case gStr:
-		if g.p.OrdMap && depth >= 2 && !plain {
-			opts = append(opts, func() *E { return Var("bs") })
-		}
 		opts = append(opts,
 			func() *E { return Idx(g.exprD(gArrStr, depth-1, true), g.indexArg()) },
 			func() *E { return Prop(Idx(Var("r"), g.indexArg()), "v") },
